@@ -235,4 +235,118 @@ theorem bits_inv {start : Nat} {vst vst' : VSt} {name an ty b rest} {offs' : Lis
       simp only [not_or, ne_eq, Decidable.not_not] at hc
       exact ⟨by rw [t1, g1]; exact hc.2, by rw [t2, g1, hR0]⟩
 
+/-! ### the void fields under the cursor are skipped by whatever statement comes next -/
+
+theorem skipVoids_idem : ∀ (fs : Fields) (ctx : Ctx) (x : Vals) (fs' : Fields) (ctx' : Ctx) (k : Vals → Vals),
+    skipVoids fs ctx x = (fs', ctx', k) → skipVoids fs' ctx' .nil = (fs', ctx', id)
+  | .nil, ctx, x, fs', ctx', k, h => by
+    rw [skipVoids] at h
+    cases h
+    rw [skipVoids]
+  | .cons name an ty bits rest, ctx, x, fs', ctx', k, h => by
+    by_cases hv : isVoid ty ∧ bits.isNone
+    · rw [skipVoids_void _ _ _ _ _ _ _ hv] at h
+      cases h
+      exact skipVoids_idem rest (ctx.set name .void) .nil _ _ _ rfl
+    · rw [skipVoids_other _ _ _ _ _ _ _ hv] at h
+      cases h
+      exact skipVoids_other _ _ _ _ _ _ _ hv
+
+theorem wrapR_id' (k : Vals → Vals) (r : Res) :
+    (match r with | .error e => .error e | .ok (vs, szs, pe) => (.ok (k vs, szs, pe) : Res)) = wrapR k [] r := by
+  cases r with
+  | error e => rfl
+  | ok x => rfl
+
+/-- running a plan skips the void fields under the cursor first, whatever its first statement is -/
+theorem exec_absorb (cfg : Cfg) (salign start : Nat) (data : Bytes) : ∀ (plan : Plan) (fs : Fields) (st : St)
+    (fs' : Fields) (ctx' : Ctx) (k : Vals → Vals), skipVoids fs st.ctx .nil = (fs', ctx', k) →
+    exec cfg salign start data plan fs st = wrapR k [] (exec cfg salign start data plan fs' { st with ctx := ctx' }) := by
+  intro plan
+  induction plan with
+  | nil =>
+    intro fs st fs' ctx' k hsk
+    have hid := skipVoids_idem _ _ _ _ _ _ hsk
+    simp only [exec, hsk, hid]
+    cases fs' <;> rfl
+  | cons ins is ih =>
+    intro fs st fs' ctx' k hsk
+    have hid := skipVoids_idem _ _ _ _ _ _ hsk
+    cases ins with
+    | bitsReset =>
+      simp only [exec]
+      exact ih fs _ fs' ctx' k hsk
+    | seek o =>
+      simp only [exec, hsk, hid]
+      cases exec cfg salign start data is fs' { pos := start + o, bb := st.bb, ctx := ctx' } <;> rfl
+    | align a =>
+      simp only [exec, hsk, hid]
+      cases exec cfg salign start data is fs' { pos := st.pos + padNat st.pos a, bb := st.bb, ctx := ctx' } <;> rfl
+    | alignCls =>
+      simp only [exec, hsk, hid]
+      cases exec cfg salign start data is fs' { pos := st.pos + padNat st.pos salign, bb := st.bb, ctx := ctx' } <;> rfl
+    | sub nm =>
+      simp only [exec, hsk, hid]
+      repeat' split
+      all_goals first | rfl | simp_all [wrapR]
+    | bits nm n via =>
+      simp only [exec, hsk, hid]
+      repeat' split
+      all_goals first | rfl | simp_all [wrapR]
+    | block size fmt slots =>
+      simp only [exec, hsk, hid]
+      repeat' split
+      all_goals first | rfl | simp_all [wrapR]
+
+/-- a seek in front of void fields: they are skipped by the statement after it -/
+theorem exec_seek (cfg : Cfg) (salign start : Nat) (data : Bytes) (o : Nat) (is : Plan) (fs : Fields) (st : St) :
+    exec cfg salign start data (.seek o :: is) fs st = exec cfg salign start data is fs { st with pos := start + o } := by
+  rw [exec_absorb cfg salign start data is fs { st with pos := start + o } _ _ _ rfl]
+  simp only [exec]
+  cases exec cfg salign start data is (skipVoids fs st.ctx .nil).1
+    { pos := start + o, bb := st.bb, ctx := (skipVoids fs st.ctx .nil).2.1 } <;> rfl
+
+/-! ### members without a structure consume their declared size -/
+
+/-- a type that contains no structure and has a static size is read in exactly that many bytes -/
+theorem static_pf (cfg : Cfg) (d : Bytes) : ∀ (ty : Ty), readsStruct ty = false → (ty.size cfg).isSome = true →
+    ElemPF cfg false ty d
+  | .sc s a, _, _ => pf_sc cfg false s a d
+  | .enum b a f, _, _ => pf_enum cfg false b a f d
+  | .ptr t, _, _ => pf_ptr cfg false t d
+  | .struct _ _, h, _ => by simp [readsStruct] at h
+  | .union _ _, h, _ => by simp [readsStruct] at h
+  | .arr e len, h, hs => by
+    cases len with
+    | fixed n =>
+      have hes : (e.size cfg).isSome = true := by
+        simp only [Ty.size] at hs
+        cases he : e.size cfg with
+        | none => rw [he] at hs; simp at hs
+        | some k => rfl
+      have hE := static_pf cfg d e (by simpa [readsStruct] using h) hes
+      intro ctx pos v p hr hpos
+      rw [read_arr_fixed] at hr
+      obtain ⟨h1, _, h3⟩ := pf_array cfg false e d hE n ctx pos v p hr (fun h => by cases h)
+      refine ⟨h1, (fun h => by cases h), ?_⟩
+      intro k hk
+      simp only [Ty.size] at hk
+      cases he : e.size cfg with
+      | none => rw [he] at hk; cases hk
+      | some k' =>
+        rw [he] at hk
+        cases hk
+        exact h3 k' he
+    | nullTerm => simp [Ty.size] at hs
+    | expr _ => simp [Ty.size] at hs
+    | eof => simp [Ty.size] at hs
+
+theorem subSizesAux_all (cfg : Cfg) (data : Bytes) (start : Nat) : ∀ (fs : Fields) (offs : List (Option Nat)),
+    SubSizesAux cfg data start fs offs
+  | .nil, _ => trivial
+  | .cons _ _ ty bits rest, offs => by
+    refine ⟨?_, subSizesAux_all cfg data start rest _⟩
+    intro _ hns o n _ hn ctx v p hr
+    exact (static_pf cfg data ty hns (by rw [hn]; rfl) ctx _ v p hr (fun h => by cases h)).2.2 n hn
+
 end Cstruct.Compiler
